@@ -106,7 +106,16 @@ func (s *SequencerSyncer) handlePotentialReorg(ctx context.Context, header *type
 		return errors.Wrap(err, "failed to query transaction submitted events sync status")
 	}
 
-	numReorgedBlocks := getNumReorgedBlocks(&syncedUntil, header)
+	checkHeader := header
+	if header.Number.Int64() > syncedUntil.BlockNumber+1 {
+		// Blocks have been skipped, so the given header cannot tell if the synced block is still
+		// part of the chain. Check the current successor of the synced block instead.
+		checkHeader, err = s.ExecutionClient.HeaderByNumber(ctx, big.NewInt(syncedUntil.BlockNumber+1))
+		if err != nil {
+			return errors.Wrap(err, "failed to get header of the block following the synced block")
+		}
+	}
+	numReorgedBlocks := getNumReorgedBlocks(&syncedUntil, checkHeader)
 	if numReorgedBlocks > 0 {
 		return s.resetSyncStatus(ctx, numReorgedBlocks)
 	}
